@@ -11,7 +11,11 @@ package main
 //	udpports   "e443>14,d67.68>10,..."                       the tagless `switch { case ... }` inside the UDP case:
 //	                                                         e = Src == p || Dst == p, d = Dst == p || Dst == q ...
 //
-// Every row is case-constant(s) > PayloadID assigned at the top level of the case body.  A shape that is not
+// Every row is case-constant(s) > PayloadID assigned at the top level of the case body.  The rows of a switch over
+// constants (payloadid, ethertype, ipproto) form a SET - Go forbids duplicate constant cases, so their order means
+// nothing - and are sorted by key; only the tagless UDP port switch, where the first matching case wins, keeps its
+// source order.  The switches are found by their case constants (ETH_P_IP / IPPROTO_UDP), not by the spelling of
+// their operand; operands may be locals; a comparison may be written either way round.  A shape that is not
 // recognised (a harmless refactor: other variable names, helper functions, a map) yields ok=false: the caller then
 // records a stat and relies on the generated frames only.
 
@@ -37,9 +41,10 @@ var syscallConst = map[string]int64{
 }
 
 type tables struct {
-	ids   map[string]int64 // PayloadID name -> value
-	order []string         // names in source order
-	fn    *ast.FuncDecl    // Session.Parse
+	ids    map[string]int64 // PayloadID name -> value
+	consts map[string]int64 // every other integer constant of the file declared with a literal value
+	order  []string         // names in source order
+	fn     *ast.FuncDecl    // Session.Parse
 }
 
 func exprStr(e ast.Expr) string {
@@ -69,7 +74,10 @@ func (t *tables) constVal(e ast.Expr) (int64, bool) {
 			return v, ok
 		}
 	case *ast.Ident:
-		v, ok := t.ids[x.Name]
+		if v, ok := t.ids[x.Name]; ok {
+			return v, true
+		}
+		v, ok := t.consts[x.Name]
 		return v, ok
 	case *ast.ParenExpr:
 		return t.constVal(x.X)
@@ -83,7 +91,7 @@ func loadTables(repo string) (*tables, error) {
 	if err != nil {
 		return nil, err
 	}
-	t := &tables{ids: map[string]int64{}}
+	t := &tables{ids: map[string]int64{}, consts: map[string]int64{}}
 	for _, d := range f.Decls {
 		switch x := d.(type) {
 		case *ast.GenDecl:
@@ -92,7 +100,15 @@ func loadTables(repo string) (*tables, error) {
 			}
 			for _, s := range x.Specs {
 				vs := s.(*ast.ValueSpec)
-				if ty, ok := vs.Type.(*ast.Ident); !ok || ty.Name != "PayloadID" || len(vs.Names) != 1 || len(vs.Values) != 1 {
+				if len(vs.Names) != 1 || len(vs.Values) != 1 {
+					continue
+				}
+				if ty, ok := vs.Type.(*ast.Ident); !ok || ty.Name != "PayloadID" {
+					if lit, ok := vs.Values[0].(*ast.BasicLit); ok && lit.Kind == token.INT {
+						if v, err := strconv.ParseInt(lit.Value, 0, 64); err == nil {
+							t.consts[vs.Names[0].Name] = v
+						}
+					}
 					continue
 				}
 				if lit, ok := vs.Values[0].(*ast.BasicLit); ok && lit.Kind == token.INT {
@@ -129,7 +145,7 @@ func (t *tables) payloadAssigned(body []ast.Stmt) (int64, bool) {
 		if !ok || len(as.Lhs) != 1 || len(as.Rhs) != 1 || as.Tok != token.ASSIGN {
 			continue
 		}
-		if exprStr(as.Lhs[0]) != "frame.PayloadID" {
+		if sel, ok := as.Lhs[0].(*ast.SelectorExpr); !ok || sel.Sel.Name != "PayloadID" {
 			continue
 		}
 		v, ok := t.constVal(as.Rhs[0])
@@ -152,17 +168,36 @@ func (t *tables) payloadIDs() (string, bool) {
 	for _, n := range t.order {
 		rows = append(rows, fmt.Sprintf("%d:%s", t.ids[n], n))
 	}
+	sortRows(rows)
 	return strings.Join(rows, ","), true
 }
 
-// findSwitch: the first top-level `switch <tag>` of Parse whose tag prints as tag.
-func (t *tables) findSwitch(tag string) *ast.SwitchStmt {
+// findSwitch: the top-level value switch of Parse one of whose case constants is want (the operand's spelling -
+// frame.ether.EtherType(), a local, proto - does not matter).
+func (t *tables) findSwitch(want int64) *ast.SwitchStmt {
 	for _, s := range t.fn.Body.List {
-		if sw, ok := s.(*ast.SwitchStmt); ok && sw.Tag != nil && exprStr(sw.Tag) == tag {
-			return sw
+		sw, ok := s.(*ast.SwitchStmt)
+		if !ok || sw.Tag == nil {
+			continue
+		}
+		for _, c := range sw.Body.List {
+			for _, e := range c.(*ast.CaseClause).List {
+				if v, ok := t.constVal(e); ok && v == want {
+					return sw
+				}
+			}
 		}
 	}
 	return nil
+}
+
+// sortRows sorts "key>id" rows by numeric key.
+func sortRows(rows []string) {
+	key := func(s string) int64 {
+		v, _ := strconv.ParseInt(s[:strings.IndexAny(s, ">:")], 10, 64)
+		return v
+	}
+	sort.SliceStable(rows, func(i, j int) bool { return key(rows[i]) < key(rows[j]) })
 }
 
 // valueSwitch: rows "const>id" of a switch on a value, in source order; default clauses are skipped
@@ -186,28 +221,51 @@ func (t *tables) valueSwitch(sw *ast.SwitchStmt) ([]string, bool) {
 			rows = append(rows, fmt.Sprintf("%d>%d", v, id))
 		}
 	}
+	sortRows(rows)
 	return rows, len(rows) > 0
 }
 
 func (t *tables) etherType() (string, bool) {
-	sw := t.findSwitch("frame.ether.EtherType()")
+	sw := t.findSwitch(syscall.ETH_P_IP)
 	if sw == nil {
 		return "", false
 	}
-	// the 802.3 length test in front of the switch: if frame.ether.EtherType() < N { frame.PayloadID = X; return }
+	// the 802.3 length test in front of the switch: if <ethertype> < N { PayloadID = X; return } in any spelling
+	// (N > x, x <= N-1, N-1 >= x); it is the only top-level if that assigns a PayloadID constant
 	var first string
 	for _, s := range t.fn.Body.List {
 		is, ok := s.(*ast.IfStmt)
-		if !ok || is.Init != nil {
+		if !ok {
+			continue
+		}
+		id, ok := t.payloadAssigned(is.Body.List)
+		if !ok {
 			continue
 		}
 		be, ok := is.Cond.(*ast.BinaryExpr)
-		if !ok || be.Op != token.LSS || exprStr(be.X) != "frame.ether.EtherType()" {
-			continue
+		if !ok {
+			return "", false
 		}
-		lim, ok1 := t.constVal(be.Y)
-		id, ok2 := t.payloadAssigned(is.Body.List)
-		if !ok1 || !ok2 {
+		var lim int64
+		if v, isc := t.constVal(be.Y); isc { // x OP const
+			switch be.Op {
+			case token.LSS:
+				lim = v
+			case token.LEQ:
+				lim = v + 1
+			default:
+				return "", false
+			}
+		} else if v, isc := t.constVal(be.X); isc { // const OP x
+			switch be.Op {
+			case token.GTR:
+				lim = v
+			case token.GEQ:
+				lim = v + 1
+			default:
+				return "", false
+			}
+		} else {
 			return "", false
 		}
 		first = fmt.Sprintf("lt%d>%d", lim, id)
@@ -223,7 +281,7 @@ func (t *tables) etherType() (string, bool) {
 }
 
 func (t *tables) ipProto() (string, bool) {
-	sw := t.findSwitch("proto")
+	sw := t.findSwitch(syscall.IPPROTO_UDP)
 	if sw == nil {
 		return "", false
 	}
@@ -233,11 +291,12 @@ func (t *tables) ipProto() (string, bool) {
 
 // udpPorts: the tagless switch inside the IPPROTO_UDP case of `switch proto`.
 func (t *tables) udpPorts() (string, bool) {
-	sw := t.findSwitch("proto")
+	sw := t.findSwitch(syscall.IPPROTO_UDP)
 	if sw == nil {
 		return "", false
 	}
 	var inner *ast.SwitchStmt
+	locals := map[string]string{} // local identifier -> the expression it was assigned from
 	for _, c := range sw.Body.List {
 		cc := c.(*ast.CaseClause)
 		if len(cc.List) != 1 {
@@ -249,6 +308,13 @@ func (t *tables) udpPorts() (string, bool) {
 		for _, s := range cc.Body {
 			if x, ok := s.(*ast.SwitchStmt); ok && x.Tag == nil {
 				inner = x
+			}
+			if as, ok := s.(*ast.AssignStmt); ok && as.Tok == token.DEFINE && len(as.Lhs) == len(as.Rhs) {
+				for i := range as.Lhs {
+					if id, ok := as.Lhs[i].(*ast.Ident); ok {
+						locals[id.Name] = exprStr(as.Rhs[i])
+					}
+				}
 			}
 		}
 	}
@@ -268,8 +334,24 @@ func (t *tables) udpPorts() (string, bool) {
 		if !ok {
 			return "", false
 		}
-		// disjunction of frame.{Src,Dst}Addr.Port == literal
+		// disjunction of <source port> == literal / <destination port> == literal, either way round; the operands are
+		// frame.SrcAddr.Port / frame.DstAddr.Port, udp.SrcPort() / udp.DstPort(), or locals assigned from them
 		var src, dst []int64
+		side := func(e ast.Expr) string {
+			s := exprStr(e)
+			if id, ok := e.(*ast.Ident); ok {
+				if r, ok := locals[id.Name]; ok {
+					s = r
+				}
+			}
+			switch {
+			case strings.HasSuffix(s, "SrcAddr.Port") || strings.HasSuffix(s, "SrcPort()"):
+				return "s"
+			case strings.HasSuffix(s, "DstAddr.Port") || strings.HasSuffix(s, "DstPort()"):
+				return "d"
+			}
+			return ""
+		}
 		var walk func(e ast.Expr) bool
 		walk = func(e ast.Expr) bool {
 			be, ok := e.(*ast.BinaryExpr)
@@ -283,14 +365,18 @@ func (t *tables) udpPorts() (string, bool) {
 			case token.LOR:
 				return walk(be.X) && walk(be.Y)
 			case token.EQL:
-				v, ok := t.constVal(be.Y)
+				x, y := be.X, be.Y
+				v, ok := t.constVal(y)
 				if !ok {
-					return false
+					if v, ok = t.constVal(x); !ok {
+						return false
+					}
+					x = y
 				}
-				switch exprStr(be.X) {
-				case "frame.SrcAddr.Port":
+				switch side(x) {
+				case "s":
 					src = append(src, v)
-				case "frame.DstAddr.Port":
+				case "d":
 					dst = append(dst, v)
 				default:
 					return false
@@ -303,6 +389,8 @@ func (t *tables) udpPorts() (string, bool) {
 			return "", false
 		}
 		join := func(l []int64) string {
+			l = append([]int64{}, l...)
+			sort.Slice(l, func(i, j int) bool { return l[i] < l[j] })
 			s := make([]string, len(l))
 			for i, v := range l {
 				s[i] = strconv.FormatInt(v, 10)
